@@ -32,6 +32,8 @@ ONE_SHOTS = [
     (("generichash::GenericHash", "hash"), ("generichash::GenericHash", "update")),
 ]
 
+MULTI_CONFIG = True
+
 EXPLANATION = (
     "FWD: every incremental update wrapper (10 public entry points and the private helpers below them, "
     "down to the inner hasher update: sha2::Digest::update, blake2b State::update, Poly1305::update) has on "
